@@ -57,14 +57,19 @@ def _cases(draw):
     for j in range(draw(st.sampled_from([0, 1, 2, 2, 3]))):
         adds.append({"kind": draw(st.sampled_from(["target", "target", "sensor"])), "tau": draw(st.integers(1, (n - 1) * dt)),
                      "head": draw(st.floats(0, 360)), "r": draw(st.sampled_from([8500.0, 12000.0, 26560.0])), "dlat": draw(st.floats(-5, 5))})
-    pool = ["truth_only", "filter", "filter_model", "reward", "decision", "sensor", "noise", "output", "split", "agents", "schedule"] + (["adds"] if adds else [])
+    # one of the targets may leave the scenario mid-run by an agent_removal event (its own maneuvers, if any, come earlier)
+    removal = None
+    if nt >= 2 and draw(st.booleans()):
+        removal = {"tgt": draw(st.integers(0, nt - 1)), "tau": draw(st.integers(1, (n - 1) * dt))}
+        events = [e for e in events if not (e["tgt"] == removal["tgt"] and max(e["tau"], e.get("tau_end", 0)) >= removal["tau"] - dt)]
+    pool = ["truth_only", "filter", "filter_model", "reward", "decision", "sensor", "noise", "output", "split", "agents", "schedule"] + (["adds"] if adds else []) + (["no_removal"] if removal else [])
     variants = []
     for _ in range(3):
         cats = draw(st.lists(st.sampled_from(pool), min_size=1, max_size=4, unique=True))
         variants.append({"cats": sorted(cats), "split": draw(st.lists(st.integers(1, n - 1), min_size=1, max_size=2, unique=True)),
                          "output_mult": draw(st.sampled_from([2, 3, 1.5, 2.5])), "sched": draw(st.lists(st.integers(0, 11), min_size=3, max_size=8)),
                          "salt": draw(st.integers(1, 10**6)), "drop_add": draw(st.integers(0, 2)), "remove": draw(st.integers(0, nt - 1)), "policy": draw(st.sampled_from(["MyopicNaiveGreedyDecision", "RandomDecision"]))})
-    return {"start": iso(t0), "dt": dt, "n": n, "model": model, "filter_model": draw(st.sampled_from(["two_body", "special_perturbations"])), "adds": adds, "srp": draw(st.booleans()), "integrator": draw(st.sampled_from(["RK45", "DOP853"])), "targets": targets,
+    return {"start": iso(t0), "dt": dt, "n": n, "model": model, "filter_model": draw(st.sampled_from(["two_body", "special_perturbations"])), "adds": adds, "srp": draw(st.booleans()), "removal": removal, "integrator": draw(st.sampled_from(["RK45", "DOP853"])), "targets": targets,
             "events": events, "variants": variants}
 
 
@@ -90,6 +95,10 @@ def _config(c, v=None):
         else:
             evs.append({"scope": "agent_propagation", "scope_instance_id": tid, "event_type": "finite_burn", "start_time": when(e["tau"]),
                         "end_time": when(e["tau_end"]), "acc_vector": [0.0, e["acc"], 0.0], "thrust_frame": "ntw", "planned": e["planned"]})
+    rm = c.get("removal")
+    if rm and "no_removal" not in cats:
+        evs.append({"scope": "scenario_step", "scope_instance_id": 0, "start_time": (t0 + timedelta(seconds=rm["tau"])).strftime("%Y-%m-%dT%H:%M:%S.000Z"),
+                    "event_type": "agent_removal", "tasking_engine_id": 1, "agent_id": 13001 + rm["tgt"], "agent_type": "target"})
     adds = list(enumerate(c.get("adds", [])))
     if "adds" in cats and adds:
         del adds[v.get("drop_add", 0) % len(adds)]
@@ -105,7 +114,7 @@ def _config(c, v=None):
     if "agents" in cats:
         drop = 13001 + v["remove"]
         tgts = [t for t in tgts if t["id"] != drop]
-        evs = [e for e in evs if e["scope_instance_id"] != drop]
+        evs = [e for e in evs if e["scope_instance_id"] != drop and e.get("agent_id") != drop]
         tgts.append(kit.eci_target(13099, kit.circular_state_over(SITE[0], SITE[1], t0, 15000.0, heading_deg=200.0, offset_deg=(-1.0, 3.0))))
     metrics = ("ShannonInformation", "TimeSinceObservation") if "reward" in cats else ("TimeSinceObservation",)
     eng = kit.engine(1, sens, tgts, decision=v["policy"] if "decision" in cats else "MunkresDecision", metrics=metrics,
@@ -175,7 +184,7 @@ def variants(c, rec):
         mem0, db0 = _run(c, None)
     except np.linalg.LinAlgError:
         raise Skip("UKF covariance not positive definite in the base run")
-    if len(mem0) < c["n"] * (len(c["targets"]) + 2):
+    if len(mem0) < c["n"] * (len(c["targets"]) + 2 - (1 if c.get("removal") else 0)):
         raise Violation("base_incomplete", f"base run recorded {len(mem0)} truth states")
     for (aid, k), b in mem0.items():
         if db0.get((aid, k)) != b:
@@ -187,12 +196,13 @@ def variants(c, rec):
         except np.linalg.LinAlgError:
             rec.label("variant_skipped_filter_failure")
             continue
-        if len(cats) >= 2 and set(cats) & {"schedule", "split", "agents", "adds"}:
+        if len(cats) >= 2 and set(cats) & {"schedule", "split", "agents", "adds", "no_removal"}:
             rec.nontrivial([hash(str(c["targets"]) + c["start"]) % 10**6, tuple(cats)])
         for cat in cats:
             rec.label("cat:" + cat)
         rec.label(f"midrun_additions:{len(c.get('adds', []))}")
         rec.label("srp_on" if c.get("srp") else "srp_off")
+        rec.label("base_removes_a_target" if c.get("removal") else "no_removal_event")
         common = set(mem0) & set(mem1)
         if len(common) < c["n"] * 2:
             raise Violation("variant_incomplete", f"variant {cats}: only {len(common)} common (agent, step) truth states")
